@@ -7,20 +7,58 @@ package bed
 // read with the build tag "verif".
 
 //@ func reader.read
-//@   props C07 C11 C18
+//@   props C04 C07 C11 C18
 //@   let S := r.r
 //@   let p0 := old(r.r.pos)
+//@   let n0 := old(r.n)
 //@   let active0 := S.fault && (!old(r.r.fired) || S.forever)
+//@   witness line
 //@   ensures result.1 == nil <==> result.0 != nil
 //@   ensures result.1 == 1 ==> S.pos == S.end && !active0
 //@   ensures S.pos >= p0 && S.pos <= S.end
 //@   ensures result.1 == nil ==> S.pos > p0
 //@   ensures p0 == S.end && active0 ==> result.1 == S.err
 //@   ensures S.fired == (old(r.r.fired) || result.1 == S.err)
+// the record is the parse of one line of the stream: if the byte at p0 does not start an empty line or a comment,
+// that line starts at p0; it ends before the first LF (or CR LF, or the end of the stream)
+//@   let first := p0 < S.end && S.in[p0] != 10 && S.in[p0] != 13 && S.in[p0] != '#'
+//@   ensures @C04 first && result.1 == nil ==> p0 + len(line) <= S.end && forall j int :: 0 <= j && j < len(line) ==> line[j] == S.in[p0+j] && line[j] != 10
+//@   ensures @C04 first && result.1 == nil ==> p0 + len(line) == S.end || S.in[p0+len(line)] == 10 || (S.in[p0+len(line)] == 13 && (p0+len(line)+1 == S.end || S.in[p0+len(line)+1] == 10))
+//@   ensures @C04 first && result.1 == nil ==> S.pos == S.end || S.pos == p0 + len(line) + 1 || S.pos == p0 + len(line) + 2
+//@   ensures @C04 n0 != 0 ==> r.n == n0
+//@   ensures @C04 result.1 == nil ==> r.n == splitN(line, 9)
+//@   let B := result.0
+//@   let n := splitN(line, 9)
+//@   ensures @C04 result.1 == nil ==> 3 <= n && n <= 12 && B.N == n
+//@   ensures @C04 result.1 == nil ==> B.Chrom == splitF(line, 9, 0)
+//@   ensures @C04 result.1 == nil ==> atoiOK(splitF(line, 9, 1)) && B.ChromStart == atoi(splitF(line, 9, 1))
+//@   ensures @C04 result.1 == nil ==> atoiOK(splitF(line, 9, 2)) && B.ChromEnd == atoi(splitF(line, 9, 2))
+//@   ensures @C04 result.1 == nil ==> B.Name == (n > 3 ? splitF(line, 9, 3) : "")
+//@   ensures @C04 result.1 == nil && n > 4 && splitF(line, 9, 4) != "" ==> atoiOK(splitF(line, 9, 4)) && B.Score == atoi(splitF(line, 9, 4))
+//@   ensures @C04 result.1 == nil && !(n > 4 && splitF(line, 9, 4) != "") ==> B.Score == 0
+//@   ensures @C04 result.1 == nil ==> B.Strand == (n > 5 ? splitF(line, 9, 5) : "")
+//@   ensures @C04 result.1 == nil && n > 6 && splitF(line, 9, 6) != "" ==> atoiOK(splitF(line, 9, 6)) && B.ThickStart == atoi(splitF(line, 9, 6))
+//@   ensures @C04 result.1 == nil && !(n > 6 && splitF(line, 9, 6) != "") ==> B.ThickStart == 0
+//@   ensures @C04 result.1 == nil && n > 7 && splitF(line, 9, 7) != "" ==> atoiOK(splitF(line, 9, 7)) && B.ThickEnd == atoi(splitF(line, 9, 7))
+//@   ensures @C04 result.1 == nil && !(n > 7 && splitF(line, 9, 7) != "") ==> B.ThickEnd == 0
+//@   ensures @C04 result.1 == nil && n > 8 && splitF(line, 9, 8) != "" ==> splitN(splitF(line, 9, 8), ',') == 3 &&
+//@             forall k int :: 0 <= k && k < 3 ==> puintOK(splitF(splitF(line, 9, 8), ',', k)) && B.ItemRGB[k] == puint(splitF(splitF(line, 9, 8), ',', k))
+//@   ensures @C04 result.1 == nil && !(n > 8 && splitF(line, 9, 8) != "") ==> B.ItemRGB[0] == 0 && B.ItemRGB[1] == 0 && B.ItemRGB[2] == 0
+//@   ensures @C04 result.1 == nil && n > 9 && splitF(line, 9, 9) != "" ==> atoiOK(splitF(line, 9, 9)) && B.BlockCount == atoi(splitF(line, 9, 9))
+//@   ensures @C04 result.1 == nil && !(n > 9 && splitF(line, 9, 9) != "") ==> B.BlockCount == 0
+//@   ensures @C04 result.1 == nil ==> len(B.BlockSizes) == B.BlockCount && len(B.BlockStarts) == B.BlockCount
+//@   ensures @C04 result.1 == nil && n > 10 && splitF(line, 9, 10) != "" ==> len(B.BlockSizes) == splitN(splitF(line, 9, 10), ',') &&
+//@             forall k int :: 0 <= k && k < len(B.BlockSizes) ==> atoiOK(splitF(splitF(line, 9, 10), ',', k)) && B.BlockSizes[k] == atoi(splitF(splitF(line, 9, 10), ',', k))
+//@   ensures @C04 result.1 == nil && !(n > 10 && splitF(line, 9, 10) != "") ==> len(B.BlockSizes) == 0
+//@   ensures @C04 result.1 == nil && n > 11 && splitF(line, 9, 11) != "" ==> len(B.BlockStarts) == splitN(splitF(line, 9, 11), ',') &&
+//@             forall k int :: 0 <= k && k < len(B.BlockStarts) ==> atoiOK(splitF(splitF(line, 9, 11), ',', k)) && B.BlockStarts[k] == atoi(splitF(splitF(line, 9, 11), ',', k))
+//@   ensures @C04 result.1 == nil && !(n > 11 && splitF(line, 9, 11) != "") ==> len(B.BlockStarts) == 0
 //@   loop 1
 //@     invariant r != nil
 //@     invariant p0 <= r.r.pos && r.r.pos <= S.end
 //@     invariant r.r.fired == old(r.r.fired)
+//@     invariant r.n == n0
+//@     invariant r.r.pos == p0 || !first
 //@     decreases S.end - r.r.pos
 
 //@ func Reader
@@ -50,13 +88,45 @@ package bed
 
 //@ func parseLine
 //@   props C04 C11
-//@   thin
+//@   let F := old(fields)
+//@   let n := old(len(fields))
+//@   let B := result.0
 //@   ensures result.1 == nil <==> result.0 != nil
 //@   ensures result.1 == nil || localErr(result.1)
+//@   ensures @C04 result.1 == nil ==> 3 <= n && n <= 12 && B.N == n
+//@   ensures @C04 result.1 == nil ==> B.Chrom == F[0]
+//@   ensures @C04 result.1 == nil ==> atoiOK(F[1]) && B.ChromStart == atoi(F[1])
+//@   ensures @C04 result.1 == nil ==> atoiOK(F[2]) && B.ChromEnd == atoi(F[2])
+//@   ensures @C04 result.1 == nil ==> B.Name == (n > 3 ? F[3] : "")
+//@   ensures @C04 result.1 == nil && n > 4 && F[4] != "" ==> atoiOK(F[4]) && B.Score == atoi(F[4])
+//@   ensures @C04 result.1 == nil && !(n > 4 && F[4] != "") ==> B.Score == 0
+//@   ensures @C04 result.1 == nil ==> B.Strand == (n > 5 ? F[5] : "")
+//@   ensures @C04 result.1 == nil ==> B.Strand == "" || B.Strand == "+" || B.Strand == "-" || B.Strand == "."
+//@   ensures @C04 result.1 == nil && n > 6 && F[6] != "" ==> atoiOK(F[6]) && B.ThickStart == atoi(F[6])
+//@   ensures @C04 result.1 == nil && !(n > 6 && F[6] != "") ==> B.ThickStart == 0
+//@   ensures @C04 result.1 == nil && n > 7 && F[7] != "" ==> atoiOK(F[7]) && B.ThickEnd == atoi(F[7])
+//@   ensures @C04 result.1 == nil && !(n > 7 && F[7] != "") ==> B.ThickEnd == 0
+//@   ensures @C04 result.1 == nil && n > 8 && F[8] != "" ==> splitN(F[8], ',') == 3 &&
+//@             forall k int :: 0 <= k && k < 3 ==> puintOK(splitF(F[8], ',', k)) && B.ItemRGB[k] == puint(splitF(F[8], ',', k))
+//@   ensures @C04 result.1 == nil && !(n > 8 && F[8] != "") ==> B.ItemRGB[0] == 0 && B.ItemRGB[1] == 0 && B.ItemRGB[2] == 0
+//@   ensures @C04 result.1 == nil && n > 9 && F[9] != "" ==> atoiOK(F[9]) && B.BlockCount == atoi(F[9])
+//@   ensures @C04 result.1 == nil && !(n > 9 && F[9] != "") ==> B.BlockCount == 0
+//@   ensures @C04 result.1 == nil ==> len(B.BlockSizes) == B.BlockCount && len(B.BlockStarts) == B.BlockCount
+//@   ensures @C04 result.1 == nil && n > 10 && F[10] != "" ==> len(B.BlockSizes) == splitN(F[10], ',') &&
+//@             forall k int :: 0 <= k && k < len(B.BlockSizes) ==> atoiOK(splitF(F[10], ',', k)) && B.BlockSizes[k] == atoi(splitF(F[10], ',', k))
+//@   ensures @C04 result.1 == nil && !(n > 10 && F[10] != "") ==> len(B.BlockSizes) == 0
+//@   ensures @C04 result.1 == nil && n > 11 && F[11] != "" ==> len(B.BlockStarts) == splitN(F[11], ',') &&
+//@             forall k int :: 0 <= k && k < len(B.BlockStarts) ==> atoiOK(splitF(F[11], ',', k)) && B.BlockStarts[k] == atoi(splitF(F[11], ',', k))
+//@   ensures @C04 result.1 == nil && !(n > 11 && F[11] != "") ==> len(B.BlockStarts) == 0
+//@   loop 1
+//@     invariant bed != nil && len(rgb) == 3 && 0 <= i && i <= 3
+//@     invariant forall k int :: 0 <= k && k < i ==> puintOK(rgb[k]) && bed.ItemRGB[k] == puint(rgb[k])
 //@   loop 2
 //@     invariant bed != nil && len(bed.BlockSizes) == len(sizes)
+//@     invariant forall k int :: 0 <= k && k < i ==> atoiOK(sizes[k]) && bed.BlockSizes[k] == atoi(sizes[k])
 //@   loop 3
 //@     invariant bed != nil && len(bed.BlockStarts) == len(starts)
+//@     invariant forall k int :: 0 <= k && k < i ==> atoiOK(starts[k]) && bed.BlockStarts[k] == atoi(starts[k])
 
 // ---- writer ----
 
